@@ -564,7 +564,8 @@ class Interp:
 
     # ---- commands ---------------------------------------------------------------------
     def action(self, kind, operands):
-        self.delay_event()
+        if self.matrix is None:     # nothing is sent from inside a block
+            self.delay_event()
         for operand in operands:
             self.operand(kind, operand)
 
